@@ -209,6 +209,10 @@ def _boxes(tier):
             "FB == {0, 1, -2}\n"
             "Box == \\E s \\in {<<2, 1>>, <<3, 1>>, <<2, 2>>, <<3, 2>>} : \\E f \\in [1..s[1] -> [1..s[2] -> FB]] :\n"
             "         inp = [kind |-> \"vario_s\", cols |-> s[2], f |-> f]\n"),
+        "krige_far": (
+            "Box == \\E n \\in 1..3, unb \\in BOOLEAN, c0 \\in {1, 2} : \\E cond \\in [1..n -> {-1, 2}], mean \\in (IF unb THEN {0} ELSE {0, 3}) :\n"
+            "         \\E tg \\in {<<0, 1, 0, n, 0>>, <<1, 0, 0>>, <<0>>, <<0, 0, n, 1>>} :\n"
+            "         inp = [kind |-> \"krige_far\", unb |-> unb, c0 |-> c0, cond |-> cond, mean |-> mean, tg |-> tg]\n"),
         "vario_d": (
             "DB == {<<1, 0>>, <<0, 1>>, <<1, 1>>, <<-1, 0>>, <<-3, 1>>, <<-2, -1>>, <<3, 1>>}\n"
             "Clouds == {<< <<0, 0>>, <<3, -1>>, <<1, 0>>, <<2, 0>>, <<0, 2>>, <<-3, 1>> >>,\n"
@@ -237,6 +241,8 @@ def mc_module(name, kind, cases, box, projdef):
     txt += projdef + box
     txt += "McInit == (CaseInit \\/ Box) /\\ out = Result(inp)\n====\n"
     cfg = "CONSTANTS\n Cases <- McCases\n ProjSrc <- McProjSrc\nINIT McInit\nNEXT Next\n"
+    if kind == "krige_far":
+        cfg += "INVARIANT FarInverseOK\n"
     if kind == "projector":
         cfg += "INVARIANT Solenoidal\nINVARIANT ProjectorNorm\nINVARIANT ExtractedSolenoidal\nINVARIANT ExtractedIsProjector\n"
     return txt, cfg
@@ -314,6 +320,8 @@ def case_calls(inp, flip=False):
 
         return [("structured", (f,), exp_s),
                 ("ma_structured", (f, np.zeros(f.shape, dtype=np.uint8)), exp_s)]
+    if kind == "krige_far":
+        return []  # handled by caller_krige_far (kernels on TLC's matrix + the public caller)
     if kind == "vario_d":
         npts, nf = len(inp["pos"]), len(inp["f"])
         pos = _strided(_mat(inp["pos"], npts, inp["d"]).T, flip)
@@ -524,6 +532,13 @@ def _lattice_group(states, threads, sink, nontriv, samples):
     n = 0
     calls, meta = [], []
     for idx, inp, out in states:
+        if inp["kind"] == "krige_far":
+            n += caller_krige_far(idx, inp, out, sink)
+            nontriv.add(hash(("krige_far", tlaval.freeze(inp))))
+            if idx % 40 == 0 and len(samples) < 1:
+                samples.append({"caller": "Krige (simple/ordinary, compact support, far targets)", "spec_input": inp,
+                                "tlc_expected_field": out["field"], "tlc_expected_krige_var": out["var"]})
+            continue
         for kernel, args, exp_of in case_calls(inp, flip=bool(idx % 2)):
             calls.append((kernel, args, ()))
             meta.append((idx, inp, out, exp_of(out)))
@@ -539,6 +554,84 @@ def _lattice_group(states, threads, sink, nontriv, samples):
             samples.append({"kernel": kernel, "spec_input": inp, "tlc_expected": out,
                             "compiled": _lst(res["compiled"][0]) if res["compiled"][0] is not None else None})
     return n
+
+
+def _rat(x):
+    return x[0] / x[1]
+
+
+def caller_krige_far(idx, inp, out, sink):
+    """Kind krige_far: (a) the kriging kernels applied to TLC's inverse matrix, (b) the public caller
+    (gs.krige.Simple / Ordinary on a compactly supported model with targets beyond the range) against TLC's values,
+    with and without chunking and return_var, under a cycled config.NUM_THREADS."""
+    import gstools as gs
+    from gstools import config
+
+    n, unb, c0 = len(inp["cond"]), inp["unb"], inp["c0"]
+    size = n + (1 if unb else 0)
+    mat = np.array([[_rat(x) for x in row] for row in out["mat"]], dtype=np.double).reshape(size, size)
+    rhs = np.zeros((size, len(inp["tg"])))
+    for p, t in enumerate(inp["tg"]):
+        if t:
+            rhs[t - 1, p] = c0
+        if unb:
+            rhs[n, p] = 1.0
+    cond = np.array([z - inp["mean"] for z in inp["cond"]] + ([0.0] if unb else []), dtype=np.double)
+    raw = np.array([_rat(x) for x in out["raw"]])
+    err = np.array([_rat(x) for x in out["err"]])
+    cnt = 0
+    rp = {"kind": "lattice-krige-far", "spec_input": inp, "spec_output": out}
+    for kernel, expected in (("calc_field_krige_and_variance", (raw, err)), ("calc_field_krige", (raw,))):
+        res = run_impls(kernel, (mat, rhs, cond), threads=(None, 3))
+        judge(kernel, res, expected, 1e-9, sink, dict(rp, kernel=kernel))
+        cnt += 1
+    # the public caller
+    dim = 1 + idx % 2
+    names = ("Spherical", "Cubic", "Circular") if dim == 2 else ("Spherical", "Cubic", "Linear")
+    name = names[idx % 3]
+    model = getattr(gs, name)(dim=dim, var=float(c0), len_scale=1.0)
+    cpos = np.zeros((dim, n))
+    cpos[0] = 3.0 * np.arange(n)  # pairwise distance >= 3 > range (1)
+    tpos = np.zeros((dim, len(inp["tg"])))
+    for p, t in enumerate(inp["tg"]):
+        if t:
+            tpos[:, p] = cpos[:, t - 1]
+        else:
+            tpos[0, p] = 40.0 + 5.0 * p
+            tpos[-1, p] = -30.0
+    want_f = np.array([_rat(x) for x in out["field"]])
+    want_v = np.array([_rat(x) for x in out["var"]])
+    old = config.NUM_THREADS
+    for chunk in (None, 1, 2):
+        for rv in (True, False):
+            nt = WRAPPER_THREADS[(idx + cnt) % len(WRAPPER_THREADS)]
+            cnt += 1
+            what = "%s kriging, %s(dim=%d, var=%d, len_scale=1), conditions %s at x = 0,3,..: targets %s (0 = beyond the range of every condition), " \
+                   "chunk_size=%s, return_var=%s, NUM_THREADS=%s" % ("ordinary" if unb else "simple (mean %d)" % inp["mean"], name, dim, c0,
+                                                                 inp["cond"], inp["tg"], chunk, rv, nt)
+            config.NUM_THREADS = nt
+            try:
+                with np.errstate(all="ignore"):
+                    if unb:
+                        k = gs.krige.Ordinary(model, list(cpos), [float(z) for z in inp["cond"]])
+                    else:
+                        k = gs.krige.Simple(model, list(cpos), [float(z) for z in inp["cond"]], mean=float(inp["mean"]))
+                    r = k(list(tpos), chunk_size=chunk, return_var=rv, store=False)
+            except Exception as e:  # noqa: BLE001
+                sink("caller:Krige:raises", "%s raised %s: %s" % (what, type(e).__name__, e), rp)
+                continue
+            finally:
+                config.NUM_THREADS = old
+            got_f = np.asarray(r[0] if rv else r, dtype=np.double)
+            if not close(got_f, want_f, 1e-9):
+                sink("caller:Krige:%s:field" % ("ordinary" if unb else "simple"),
+                     "%s: field %s differs from the defining sums over the kriging system computed by TLC %s"
+                     % (what, got_f.tolist(), want_f.tolist()), dict(rp, chunk_size=chunk, return_var=rv))
+            if rv and not close(np.asarray(r[1]), want_v, 1e-9):
+                sink("caller:Krige:%s:krige_var" % ("ordinary" if unb else "simple"),
+                     "%s: krige_var %s differs from sill - rhs^T M rhs computed by TLC %s"
+                     % (what, np.asarray(r[1]).tolist(), want_v.tolist()), dict(rp, chunk_size=chunk, return_var=rv))
+    return cnt
 
 
 def caller_directional(inp, out, expected, sink, nt):
@@ -1077,6 +1170,84 @@ def callers_check(rep, seed, interp0):
                                   {"kind": "caller-relation", "class": cls, "dim": d, "seed": seed, "got": got, "want": want})
 
 
+def krige_relation(rep, seed, interp1):
+    """Krige(pos) = post-processing of the kriging kernels' defining sums over the object's OWN system:
+    raw field = calc_field_krige[_and_variance](krige_mat, rhs, krige_cond), krige_var = max(sill - error, 0),
+    for Simple / Ordinary / Universal / external drift, compactly supported models with targets beyond the range
+    (columns of the covariance block of the right-hand side exactly zero), with and without chunking / return_var."""
+    import gstools as gs
+    from gstools import config
+
+    g = np.random.default_rng(seed + 2)
+    old = config.NUM_THREADS
+    kinds = ("simple", "ordinary", "universal", "extdrift")
+    cnt = 0
+    for ci, (name, dim) in enumerate((("Spherical", 2), ("Cubic", 1), ("Circular", 2), ("Gaussian", 2), ("Spherical", 3))):
+        for kind in kinds:
+            model = getattr(gs, name)(dim=dim, var=1.5, len_scale=1.0, nugget=0.25 if ci == 2 else 0.0)
+            ncond = 6
+            cpos = g.uniform(0, 4, size=(dim, ncond))
+            cval = g.normal(size=ncond)
+            tpos = g.uniform(0, 4, size=(dim, 9))
+            tpos[:, 1] = 50.0 + g.uniform(0, 1, size=dim)  # beyond the range of every condition
+            tpos[:, 4] = -60.0
+            tpos[:, 8] = 75.0
+            tpos[:, 6] = cpos[:, 2]  # exactly at a condition
+            kw, ckw = {}, {}
+            if kind == "extdrift":
+                kw["ext_drift"] = g.normal(size=ncond)
+                ckw["ext_drift"] = g.normal(size=9)
+            for chunk in (None, 1, 4):
+                for rv in (True, False):
+                    nt = WRAPPER_THREADS[cnt % len(WRAPPER_THREADS)]
+                    cnt += 1
+                    what = "%s kriging, %s dim %d, chunk_size=%s, return_var=%s, NUM_THREADS=%s" % (kind, name, dim, chunk, rv, nt)
+                    rp = {"kind": "krige-relation", "krige": kind, "model": name, "dim": dim, "seed": seed, "chunk_size": chunk, "return_var": rv}
+                    config.NUM_THREADS = nt
+                    try:
+                        with np.errstate(all="ignore"):
+                            if kind == "simple":
+                                k = gs.krige.Simple(model, list(cpos), cval, mean=0.5)
+                            elif kind == "ordinary":
+                                k = gs.krige.Ordinary(model, list(cpos), cval)
+                            elif kind == "universal":
+                                k = gs.krige.Universal(model, list(cpos), cval, "linear")
+                            else:
+                                k = gs.krige.ExtDrift(model, list(cpos), cval, kw["ext_drift"])
+                            r = k(list(tpos), chunk_size=chunk, return_var=rv, post_process=False, store=False, **ckw)
+                    except Exception as e:  # noqa: BLE001
+                        rep.violation("caller:Krige:raises", "%s raised %s: %s" % (what, type(e).__name__, e), rp)
+                        continue
+                    finally:
+                        config.NUM_THREADS = old
+                    try:
+                        iso_pos, _shape = k.pre_pos(list(tpos), "unstructured")
+                        ext = k._pre_ext_drift(9, ckw.get("ext_drift"))
+                        rhs = k._get_krige_vecs(iso_pos, (0, None), ext, False)
+                        raw, err = rewriter.call(interp1.calc_field_krige_and_variance, np.asarray(k._krige_mat, dtype=np.double),
+                                                 np.asarray(rhs, dtype=np.double), np.asarray(k._krige_cond, dtype=np.double))
+                        sill = k.model.sill
+                    except AttributeError as e:
+                        rep.note("Krige internals renamed (%s): caller-vs-kernel relation not checked" % e)
+                        return
+                    except Exception as e:  # noqa: BLE001  the interpreted source fails: reported by the kernel comparison
+                        rep.note("Krige caller-vs-kernel relation not evaluated: %r" % e)
+                        return
+                    rep.count(1)
+                    rep.traces += 1
+                    got_f = np.asarray(r[0] if rv else r)
+                    if not close(got_f, raw, 1e-12):
+                        rep.violation("caller:Krige:kernel-relation:field",
+                                      "%s: the raw field differs from the kriging kernel's defining sum over the object's own system at "
+                                      "targets %s (targets 1, 4, 8 are beyond the range): got %s, want %s"
+                                      % (what, np.flatnonzero(~np.isclose(got_f, raw, rtol=1e-12, atol=1e-12)).tolist(), _short(got_f, 9), _short(raw, 9)),
+                                      dict(rp, got=got_f, want=raw))
+                    if rv and not close(np.asarray(r[1]), np.maximum(sill - err, 0), 1e-12):
+                        rep.violation("caller:Krige:kernel-relation:krige_var",
+                                      "%s: krige_var differs from max(sill - error, 0) with the kernel's defining sum: got %s, want %s"
+                                      % (what, _short(r[1], 9), _short(np.maximum(sill - err, 0), 9)), dict(rp, got=r[1], want=np.maximum(sill - err, 0)))
+
+
 # ---------------------------------------------------------------------------
 # C16
 
@@ -1185,6 +1356,31 @@ def _task_fields(job):
              % (name, dim, seed, float(np.max(np.abs(div))), pts[:, int(np.argmax(np.abs(div)))].tolist()), rp)
     samples.append({"model": name, "dim": dim, "seed": seed, "modes": N, "max_abs_divergence": float(np.max(np.abs(div))),
                     "max_abs_k_dot_p": float(np.max(np.abs(kdotp))), "u_at_origin": u[:, 0].tolist()})
+    # one call with several thousand points (structured mesh): the same superposition, and the values do not depend
+    # on how many other points are evaluated in the same call
+    axes = [np.linspace(-6, 6, 70), np.linspace(-5, 7, 60)] if dim == 2 else [np.linspace(-6, 6, 20), np.linspace(-5, 7, 15), np.linspace(-4, 4, 14)]
+    big = srf(axes, mesh_type="structured", store=False)
+    gpts = np.stack([m.ravel() for m in np.meshgrid(*axes, indexing="ij")])
+    bigf = np.asarray(big).reshape(dim, -1)
+    n += 1
+    if bigf.shape != (dim, gpts.shape[1]):
+        sink("VectorField:big-call:shape", "%s dim %d: a structured call on %s axes returns shape %s" % (name, dim, [len(a) for a in axes], np.shape(big)), rp)
+    else:
+        ph = ks.T @ gpts
+        asm = fac * (P @ (z1[:, None] * np.cos(ph) + z2[:, None] * np.sin(ph)))
+        asm[0] += 1.0
+        if not close(bigf, asm, 1e-9):
+            sink("VectorField:superposition", "%s dim %d: a call with %d points is not mean*e1 + mean*sqrt(var/N) * sum_j p(k_j)(z1 cos + z2 sin) "
+                 "over the generator's own modes: max deviation %.3e" % (name, dim, gpts.shape[1], float(np.max(np.abs(bigf - asm)))), dict(rp, points=gpts.shape[1]))
+        sel = g.choice(gpts.shape[1], size=17, replace=False)
+        small = srf(list(gpts[:, sel]), store=False)
+        n += 1
+        if not close(small, bigf[:, sel], 1e-12):
+            sink("VectorField:batch-dependence", "%s dim %d: the values of a %d-point call differ from a 17-point call at the same points: "
+                 "max deviation %.3e" % (name, dim, gpts.shape[1], float(np.max(np.abs(small - bigf[:, sel])))), dict(rp, points=gpts.shape[1]))
+        d2 = fac * (kdotp[:, None] * (-z1[:, None] * np.sin(ph) + z2[:, None] * np.cos(ph))).sum(axis=0)
+        if not np.all(np.abs(d2) <= 1e-9):
+            sink("VectorField:divergence", "%s dim %d seed %d: analytic divergence on the %d-point mesh is %.3e" % (name, dim, seed, gpts.shape[1], float(np.max(np.abs(d2)))), rp)
     # mean: with a tiny variance the field is (mean_velocity, 0[, 0]) everywhere
     for mv in (0.5, 3.0, -2.0):
         tiny = gs.SRF(_mk_model(gs, name, dim, 2.0 ** -100), generator="VectorField", seed=seed, mode_no=mode_no, mean_velocity=mv)
@@ -1394,7 +1590,7 @@ def _run_c15(rep, rng, tier, seed, setup, sc):
     ]
     cases = lattice_cases(rng, tier)
     projdef, _ok = projector_def(setup, rep)
-    kinds = ["summate", "fourier", "incompr", "krige", "vario_u", "vario_s", "vario_d"]
+    kinds = ["summate", "fourier", "incompr", "krige", "krige_far", "vario_u", "vario_s", "vario_d"]
     jobs = kernel_jobs(sc, kinds, cases, tier, projdef)
     ojobs, regs_all = omp_jobs(sc, setup, rep, tier)
     t0 = time.time()
@@ -1431,6 +1627,7 @@ def _run_c15(rep, rng, tier, seed, setup, sc):
     if any(setup.builds(rep)) and stats["threads_seen"] < 15:
         rep.note("the OpenMP runtime never had 15 additional OS threads in one worker (%d seen): thread counts may be capped" % stats["threads_seen"])
     callers_check(rep, seed, setup.interp[0])
+    krige_relation(rep, seed, setup.interp[1])
     return rep.finish(
         level="model_checking",
         rule="inputs = every initial state of Kernels.tla (seeded lattice cases of all shapes 0..4 x dims 1..4 per kernel + complete "
